@@ -180,6 +180,35 @@ var c03RequiredClasses = []string{
 	"jobs.*.uses", "jobs.*.with.*", "jobs.*.secrets", "jobs.*.secrets.*",
 }
 
+// classes whose sequence admits a clean whole-value expression as an earlier element (needs, ref
+// filters, types and cron do not: the expression text itself is rejected there)
+var c03RequiredAfterExprSeq = []string{
+	"jobs.*.container.ports[]", "jobs.*.container.volumes[]", "jobs.*.services.*.ports[]", "jobs.*.services.*.volumes[]",
+	"jobs.*.runs-on[]", "jobs.*.runs-on.labels[]",
+	"jobs.*.strategy.matrix.*[]", "jobs.*.strategy.matrix.*[].*", "jobs.*.strategy.matrix.*[][]",
+	"jobs.*.strategy.matrix.include[]", "jobs.*.strategy.matrix.include[].*", "jobs.*.strategy.matrix.include[].*.*", "jobs.*.strategy.matrix.include[].*[]",
+	"jobs.*.strategy.matrix.exclude[]", "jobs.*.strategy.matrix.exclude[].*", "jobs.*.strategy.matrix.exclude[].*[]",
+	"on.*.paths[]", "on.*.paths-ignore[]", "on.*.workflows[]", "on.repository_dispatch.types[]",
+	"on.workflow_dispatch.inputs.*.options[]",
+}
+
+var c03RequiredAfterExprMap = []string{
+	"name", "env.*", "concurrency.group", "defaults.run.shell",
+	"jobs.*.name", "jobs.*.runs-on", "jobs.*.env.*", "jobs.*.outputs.*", "jobs.*.timeout-minutes", "jobs.*.continue-on-error",
+	"jobs.*.strategy.fail-fast", "jobs.*.strategy.max-parallel", "jobs.*.strategy.matrix.*", "jobs.*.strategy.matrix.*[]",
+	"jobs.*.strategy.matrix.include", "jobs.*.strategy.matrix.include[]", "jobs.*.strategy.matrix.include[].*",
+	"jobs.*.strategy.matrix.exclude", "jobs.*.strategy.matrix.exclude[]", "jobs.*.strategy.matrix.exclude[].*",
+	"jobs.*.container.image", "jobs.*.container.env.*", "jobs.*.container.ports[]", "jobs.*.container.volumes[]", "jobs.*.container.options",
+	"jobs.*.container.credentials.username", "jobs.*.container.credentials.password",
+	"jobs.*.services.*.image", "jobs.*.services.*.env.*", "jobs.*.services.*.ports[]", "jobs.*.services.*.volumes[]", "jobs.*.services.*.options",
+	"jobs.*.steps[].name", "jobs.*.steps[].run", "jobs.*.steps[].uses", "jobs.*.steps[].env.*", "jobs.*.steps[].with.*",
+	"jobs.*.steps[].with.entrypoint", "jobs.*.steps[].with.args", "jobs.*.steps[].working-directory", "jobs.*.steps[].shell",
+	"jobs.*.uses", "jobs.*.with.*", "jobs.*.secrets.*",
+	"on.workflow_dispatch.inputs.*.description", "on.workflow_dispatch.inputs.*.default", "on.workflow_dispatch.inputs.*.required",
+	"on.workflow_call.inputs.*.description", "on.workflow_call.inputs.*.required", "on.workflow_call.secrets.*.required",
+	"on.workflow_call.outputs.*.value",
+}
+
 // ---------------------------------------------------------------------------
 // locating scalars in the source text
 
@@ -406,6 +435,18 @@ type c03Stats struct {
 // and is at most maxDepth steps longer than prefix (maxDepth < 0: no limit).
 // The caller has asserted that src lints clean.
 func c03MutateAll(c *Case, base string, src string, prefix []c03Step, maxDepth int, allStyles, sample bool) c03Stats {
+	return c03MutateOpt(c, base, src, prefix, maxDepth, allStyles, sample, nil)
+}
+
+// c03Opt narrows a mutation sweep: Keep selects scalars by path, Forms selects placeholder forms
+// by index (nil = all), Tag names a coverage set that receives the class of every mutant.
+type c03Opt struct {
+	Keep  func(p []c03Step) bool
+	Forms []int
+	Tag   string
+}
+
+func c03MutateOpt(c *Case, base string, src string, prefix []c03Step, maxDepth int, allStyles, sample bool, opt *c03Opt) c03Stats {
 	var st c03Stats
 	var doc yaml.Node
 	if err := yaml.Unmarshal([]byte(src), &doc); err != nil {
@@ -415,6 +456,9 @@ func c03MutateAll(c *Case, base string, src string, prefix []c03Step, maxDepth i
 	scalars := c03Scalars(&doc)
 	for si, sc := range scalars {
 		if !c03HasPrefix(sc.Path, prefix) || (maxDepth >= 0 && len(sc.Path) > len(prefix)+maxDepth) {
+			continue
+		}
+		if opt != nil && opt.Keep != nil && !opt.Keep(sc.Path) {
 			continue
 		}
 		if c03IsNull(sc.Node) {
@@ -430,6 +474,15 @@ func c03MutateAll(c *Case, base string, src string, prefix []c03Step, maxDepth i
 		class := c03Class(sc.Path)
 		pstr := c03PathString(sc.Path)
 		for fi, form := range c03Forms {
+			if opt != nil && opt.Forms != nil {
+				sel := false
+				for _, x := range opt.Forms {
+					sel = sel || x == fi
+				}
+				if !sel {
+					continue
+				}
+			}
 			// quick: one quoting style per mutant chosen by the case PRNG; thorough (allStyles): each
 			// style that the context allows (a plain scalar cannot hold '{' inside a flow collection)
 			var styles []int
@@ -490,6 +543,10 @@ func c03MutateAll(c *Case, base string, src string, prefix []c03Step, maxDepth i
 					c.Count("mutants_weak", 1)
 				}
 				c.SetAdd("classes_mutated", class)
+				if opt != nil && opt.Tag != "" {
+					c.SetAdd(opt.Tag, class)
+					c.Count(opt.Tag+"_mutants", 1)
+				}
 				c.Count("form_"+form.Name, 1)
 				c.Nontrivial(fmt.Sprintf("%s|%s|%s|%d", base, pstr, form.Name, style))
 				for _, d := range at {
@@ -698,7 +755,7 @@ func c03SetElems(r *Run, set string) []string {
 }
 
 func runC03(r *Run) {
-	r.Rule = "bases = 9 hand-written maximal clean templates + every file of testdata/ok and testdata/examples that lints clean (asserted at run time). For every non-null scalar that is a mapping value or a sequence element, one mutant per placeholder form (${{ github. }}, ${{ ! }}, ${{ 'a }}, ${{ a b }}, and the unclosed ${{ a) replaces the scalar's text in the source (plain / double / single quoted: one chosen by the case PRNG in quick, all admissible ones in thorough; verified by decoding the mutant and comparing trees). Expected: >=1 diagnostic on the scalar's line with a column inside the scalar's extent; for the closed forms outside the four excepted classes one of them is an expression lexer/parser error. Sibling configurations (node-tree edits, re-encoded, kept only if still clean): every mapping with each key removed, with reversed key order, and with random key subsets in random order (quick: templates, scalars up to 3 levels below the edited mapping; thorough: corpus files too, whole subtree for templates, 8 random subsets); 'thinned' templates with 1-4 keys removed and 0-6 mappings shuffled anywhere at once (16 / 640 cases). Non-trivial = distinct (base or variant, path, form, quoting style) mutant that was linted."
+	r.Rule = "bases = 9 hand-written maximal clean templates + every file of testdata/ok and testdata/examples that lints clean (asserted at run time). For every non-null scalar that is a mapping value or a sequence element, one mutant per placeholder form (${{ github. }}, ${{ ! }}, ${{ 'a }}, ${{ a b }}, and the unclosed ${{ a) replaces the scalar's text in the source (plain / double / single quoted: one chosen by the case PRNG in quick, all admissible ones in thorough; verified by decoding the mutant and comparing trees). Expected: >=1 diagnostic on the scalar's line with a column inside the scalar's extent; for the closed forms outside the four excepted classes one of them is an expression lexer/parser error. Sibling configurations (node-tree edits, re-encoded, kept only if still clean): every mapping with each key removed, with reversed key order, and with random key subsets in random order (quick: templates, scalars up to 3 levels below the edited mapping; thorough: corpus files too, whole subtree for templates, 8 random subsets); 'thinned' templates with 1-4 keys removed and 0-6 mappings shuffled anywhere at once (16 / 640 cases); 'expr-before': for every sequence and mapping, an element / a pair value is replaced by, or a new element / pair C03X is inserted at every position with, a valid whole-value expression of each static type class (any, object, array, array of objects, string, number, bool) and the other scalars of the container are mutated (sequences: only the later elements); 'saturated': every scalar greedily turned into a valid whole-value expression while the workflow stays clean, then all scalars mutated. Non-trivial = distinct (base or variant, path, form, quoting style) mutant that was linted."
 	r.Assume("a scalar that is YAML null (empty or ~/null) is not a 'scalar value' in the sense of the statement and is not mutated")
 	r.Assume("a diagnostic at the column one past the last character of the scalar counts as located at the scalar (lexer errors about premature end of input point there)")
 	r.Assume("the unclosed form '${{ a' only requires some diagnostic at the scalar (whole-value positions legitimately answer with a syntax-check message)")
@@ -853,6 +910,18 @@ func runC03(r *Run) {
 		}})
 	}
 
+	// expr-before: an earlier element / sibling value is a valid whole-value expression
+	var exprBases []c03Base
+	for _, b := range clean {
+		if b.Tmpl || r.Thorough() {
+			exprBases = append(exprBases, b)
+		}
+	}
+	ecases := c03ExprCases(exprBases)
+	fams = append(fams, &Family{Name: "expr-before", N: len(ecases), Do: func(c *Case) { c03DoExprCase(c, ecases[c.Idx]) }})
+
+	fams = append(fams, &Family{Name: "saturated", N: len(exprBases), Do: func(c *Case) { c03DoSaturated(c, exprBases[c.Idx]) }})
+
 	r.RunFamilies(fams)
 	if r.ReplayOf != nil {
 		return
@@ -895,6 +964,25 @@ func runC03(r *Run) {
 		}
 	}
 	r.Extra("classes_beyond_required_list", extraClasses)
+	// every sequence class below must have had a later element mutated while an earlier element was
+	// a valid whole-value expression; likewise the listed mapping classes for an earlier sibling value
+	var missingAfter []string
+	for _, cl := range c03RequiredAfterExprSeq {
+		if !r.SetHas("after_expr_seq", cl) {
+			missingAfter = append(missingAfter, "seq:"+cl)
+		}
+	}
+	for _, cl := range c03RequiredAfterExprMap {
+		if !r.SetHas("after_expr_map", cl) {
+			missingAfter = append(missingAfter, "map:"+cl)
+		}
+	}
+	if len(missingAfter) > 0 {
+		r.Inconclusive(fmt.Sprintf("no mutant behind an expression-valued earlier element/sibling for: %v", missingAfter))
+	}
+	if n := r.Counter("saturated_scalars"); n < 150 {
+		r.Inconclusive(fmt.Sprintf("saturated variants: only %d scalars could be turned into valid expressions", n))
+	}
 	if n := r.Counter("thinned_clean"); n < int64(r.Q(4, 160)) {
 		r.Inconclusive(fmt.Sprintf("only %d clean thinned template variants", n))
 	}
